@@ -155,6 +155,9 @@ CSI_COMMANDS: dict[bytes, CSIAlias | CSICommand] = {
     b"`": CSIAlias("alias", b"G"),
 }
 
+# marks a 24 bit RGB value (as opposed to a palette index) in TermCanvas.sgi_to_attrspec
+_TRUE_COLOR = 1 << 24
+
 CHARSET_DEFAULT: Literal[1] = 1  # type annotated exclusively for buggy IDE
 CHARSET_UTF8: Literal[2] = 2
 
@@ -1116,7 +1119,7 @@ class TermCanvas(Canvas):
                         # not a color: ignore, like xterm
                         idx += 1
                         continue
-                    color = (red << 16) + (green << 8) + blue
+                    color = _TRUE_COLOR | (red << 16) | (green << 8) | blue
                     colors = 2**24
                     if attr == 38:
                         fg = color
@@ -1167,9 +1170,10 @@ class TermCanvas(Canvas):
             if color is None:
                 return "default"
             # Note: we can't detect 88 color mode
-            if color > 255 or colors == 2**24:
-                return _color_desc_true(color)
+            if color & _TRUE_COLOR:
+                return _color_desc_true(color & 0xFFFFFF)
             if color > 15 or colors == 256:
+                # in a 24 bit AttrSpec this becomes the RGB value of the palette entry
                 return _color_desc_256(color)
             return _BASIC_COLORS[color]
 
@@ -1200,6 +1204,8 @@ class TermCanvas(Canvas):
                 fg = None
             else:
                 fg = self.attrspec.foreground_number
+                if self.attrspec.foreground_true:
+                    fg |= _TRUE_COLOR
                 if fg >= 8 and self.attrspec.colors == 16 and self.attrspec.bold:
                     # brightened by bold, which is carried over separately
                     fg -= 8
@@ -1208,6 +1214,8 @@ class TermCanvas(Canvas):
                 bg = None
             else:
                 bg = self.attrspec.background_number
+                if self.attrspec.background_true:
+                    bg |= _TRUE_COLOR
 
             for attr in ("bold", "underline", "blink", "standout"):
                 if not getattr(self.attrspec, attr):
